@@ -15,6 +15,21 @@ fn head_sectors(img: &[u8]) -> Vec<usize> {
     (16..blocks(img)).filter(|s| img[s * B] == 0xCD && img[s * B + 1] == 0xAB).collect()
 }
 
+/// number of record heads met by walking the data area extent by extent (v3 layout)
+pub fn live_heads(img: &[u8]) -> usize {
+    let mut s = 16;
+    let mut n = 0;
+    while s < blocks(img) {
+        if img[s * B] == 0xCD && img[s * B + 1] == 0xAB {
+            n += 1;
+            s += claimed_blocks(img, s, 3);
+        } else {
+            s += 1;
+        }
+    }
+    n
+}
+
 fn marker_sectors(img: &[u8]) -> Vec<usize> {
     (16..blocks(img)).filter(|s| &img[s * B..s * B + 8] == b"\0DELETED").collect()
 }
